@@ -60,4 +60,13 @@ def ObuHeader.marshal (h : ObuHeader) : Bytes :=
   | none => [h.byte0]
   | some e => [h.byte0, e.marshal]
 
+/-- obu.EncodeLEB128: the LEB128 bytes of `in` packed into a `uint`, first byte most significant
+    (64-bit wrap-around as in Go; ten rounds exhaust a 64-bit argument) -/
+def encodeLeb128Go : Nat → UInt64 → UInt64 → UInt64
+  | 0, _, out => out
+  | fuel + 1, inp, out =>
+    let out := out ||| (inp &&& 0x7f)
+    let inp := inp >>> 7
+    if inp != 0 then encodeLeb128Go fuel inp ((out ||| 0x80) <<< 8) else out
+
 end Rtp.Model
